@@ -151,6 +151,7 @@ class RegexParser:
         """
         self.pos = 0
         self.group_count = 0
+        self.total_groups = self._count_capture_groups()
 
         if not self.pattern:
             return Alternative([]), 1  # Empty pattern matches empty string
@@ -163,6 +164,26 @@ class RegexParser:
             )
 
         return ast, self.group_count + 1  # +1 for group 0 (full match)
+
+    def _count_capture_groups(self) -> int:
+        """Capturing groups in the whole pattern (a backreference may come
+        before the group it names)."""
+        count = 0
+        in_class = False
+        i = 0
+        while i < len(self.pattern):
+            ch = self.pattern[i]
+            if ch == "\\":
+                i += 2
+                continue
+            if in_class:
+                in_class = ch != "]"
+            elif ch == "[":
+                in_class = True
+            elif ch == "(" and self.pattern[i + 1 : i + 2] != "?":
+                count += 1
+            i += 1
+        return count
 
     def _peek(self) -> Optional[str]:
         """Look at current character without consuming."""
@@ -480,7 +501,7 @@ class RegexParser:
             while self._peek() is not None and self._peek().isdigit():
                 num += self._advance()
             group_num = int(num)
-            if group_num > self.group_count:
+            if group_num > self.total_groups:
                 # Might be octal or invalid - treat as literal for now
                 raise RegExpError(f"Invalid backreference \\{group_num}")
             return Backref(group_num)
